@@ -31,7 +31,9 @@ LEVEL_NOTE = (
     "Trusted: CPython, vlib/eqv.py (structural equality for classes without __eq__), the masks in vlib/cemi_gen.py.  Judged: equality "
     "of source, destination (value and kind), TPCI (class and sequence number), payload, priority/repeat/system-broadcast/ack/confirm/"
     "hop-count/frame-format after the round trip; Ctrl1 bit 7 == (NPDU <= 15) and Ctrl2 bit 7 == (destination is a group address) read "
-    "from the produced octets; NPDU > 254 and hop count outside 0..7 must raise (class recorded, not judged).  Re-serialisation: allowed "
+    "from the produced octets; NPDU > 254 and hop count outside 0..7 must raise (class recorded, not judged; since xknx e78d597 "
+    "GroupValueWrite/Response refuse over-long values already when created - counted - so the frame-level limit is exercised by replacing "
+    "the value of a valid payload afterwards, as Data Secure replaces payloads).  Re-serialisation: allowed "
     "to differ = FT bit, reserved Ctrl1 bit 6 (DESIGN §7), reserved application bits.  Byte-exact APDU comparison is restricted to "
     "services whose encoding I transcribed from the Application Layer document (GroupValueRead/Write/Response, IndividualAddressRead/"
     "Write/Response, ADCRead/Response, MemoryRead/Write/Response, DeviceDescriptorRead/Response; reserved low six bits masked where the "
@@ -79,7 +81,21 @@ def _gv_payload(length: int, rng: random.Random, response: bool = False) -> APCI
     cls = GroupValueResponse if response else GroupValueWrite
     if length == 1:
         return cls(DPTBinary(rng.randrange(64)))
-    return cls(DPTArray(tuple(rng.getrandbits(8) for _ in range(length - 1))))
+    data = tuple(rng.getrandbits(8) for _ in range(length - 1))
+    try:
+        return cls(DPTArray(data))
+    except ConversionError:
+        # the service class itself refuses over-long values when created (xknx e78d597).  The frame-level
+        # refusal is still exercised: replace the value afterwards, as Data Secure replaces payloads.
+        if length <= 254:
+            raise
+        obj = cls(DPTArray((0,)))
+        obj.value = DPTArray(data)
+        _gv_payload.refused_at_creation += 1
+        return obj
+
+
+_gv_payload.refused_at_creation = 0
 
 
 def _service_instances(ctx, rng: random.Random) -> list[tuple[str, APCI, int]]:
@@ -355,9 +371,16 @@ def _received_frames(ctx) -> None:
         try:
             again = frame.to_knx()
         except Exception as exc:  # noqa: BLE001
-            ctx.violation(f"received-frame-cannot-be-reserialised-{pname or 'control'}-{type(exc).__name__}",
-                          dict(witness, exception=repr(exc)[:200]),
-                          f"a received frame carrying {pname} parses but to_knx raises {type(exc).__name__}")
+            npdu_octet = raw[2 + raw[1] + 6]
+            if npdu_octet > 254:
+                ctx.violation("received-frame-with-npdu-length-255-accepted-but-cannot-be-reserialised",
+                              dict(witness, exception=repr(exc)[:200]),
+                              f"a received frame whose length octet is {npdu_octet} (escape code) parses, but to_knx refuses it: "
+                              f"{type(exc).__name__}")
+            else:
+                ctx.violation(f"received-frame-cannot-be-reserialised-{pname or 'control'}-{type(exc).__name__}",
+                              dict(witness, exception=repr(exc)[:200]),
+                              f"a received frame carrying {pname} parses but to_knx raises {type(exc).__name__}")
             continue
         what, exact = G.reserialise_diff(raw, again, pname)
         ctx.count("reserialised_exact_table" if exact else "reserialised_coarse")
@@ -395,4 +418,5 @@ def run(ctx):
     ctx.require("built_roundtrips", "wire_bits_checked", "refused_as_required", "reserialised_exact_table",
                 "reserialise_changed_allowed_bits", "reserialise_identical", "service_classes_instantiated", "telegram_roundtrips")
     _built_frames(ctx)
+    ctx.count("overlong_group_value_refused_at_creation_already", _gv_payload.refused_at_creation)
     _received_frames(ctx)
